@@ -256,6 +256,12 @@ type Case struct {
 	Net  rb.B    `json:"net"`
 	RBin SpecOut `json:"rbin"`
 	RNet SpecOut `json:"rnet"`
+	Lst  rb.B    `json:"lst"`
+	RLst struct {
+		OK   bool     `json:"ok"`
+		C    []string `json:"c"`
+		Bins []rb.B   `json:"bins"`
+	} `json:"rlst"`
 }
 
 func hasClass(cs []string, c string) bool {
@@ -347,6 +353,32 @@ func runCases(path string, sum *tl.Summary) {
 		gn := decodeNetwork(net)
 		accn := compare(sum, "DecodeRLP", "network", net, gn, c.RNet, extra())
 		sum.Count("DecodeRLP")
+		// the same element followed by a second transaction, decoded as a list in one call
+		if len(c.Lst) > 0 {
+			var txs []*types.Transaction
+			lst := c.Lst.Bytes()
+			err := rlp.DecodeBytes(lst, &txs)
+			sum.Count("DecodeList")
+			sum.Evaluations++
+			switch {
+			case (err == nil) != c.RLst.OK:
+				sum.Violate(fmt.Sprintf("DecodeBytes(%x) into []*Transaction: implementation ok=%v (%v), specification ok=%v %v", lst, err == nil, err, c.RLst.OK, c.RLst.C), extra())
+			case err != nil:
+				if !hasClass(c.RLst.C, txClass(err)) {
+					sum.Violate(fmt.Sprintf("DecodeBytes(%x) into []*Transaction: rejected with class %q (%v), specification allows %v", lst, txClass(err), err, c.RLst.C), extra())
+				}
+			default:
+				re, _ := rlp.EncodeToBytes(txs)
+				same := len(txs) == len(c.RLst.Bins) && bytes.Equal(re, lst)
+				for j := 0; same && j < len(txs); j++ {
+					b, _ := txs[j].MarshalBinary()
+					same = bytes.Equal(b, c.RLst.Bins[j].Bytes()) && int(txs[j].Size()) == len(b)
+				}
+				if !same {
+					sum.Violate(fmt.Sprintf("DecodeBytes(%x) into []*Transaction: elements, sizes or re-encoding differ from the specification", lst), extra())
+				}
+			}
+		}
 		sum.Evaluations += 2
 		sum.Steps++
 		if acc || accn {
@@ -524,6 +556,26 @@ func emitObs(tr *tl.Trace, op string, in []byte, o Obs) {
 		"size": o.Size, "pre": o.Pre, "hashok": o.HashOK, "noscsz": o.NoScSz, "json": o.JSON})
 }
 
+// emitTxList decodes an RLP list of transactions in one call and records what every element looks like.
+func emitTxList(tr *tl.Trace, in []byte) {
+	var txs []*types.Transaction
+	err := rlp.DecodeBytes(in, &txs)
+	ev := tl.M{"op": "txlist", "in": rb.FromBytes(in), "ok": err == nil, "cls": txClass(err), "bins": []rb.B{}, "sizes": []int{}, "hashok": true, "reenc": rb.B{}}
+	if err == nil {
+		bins, sizes, hashok := []rb.B{}, []int{}, true
+		for _, tx := range txs {
+			b, _ := tx.MarshalBinary()
+			bins = append(bins, rb.FromBytes(b))
+			sizes = append(sizes, int(tx.Size()))
+			pre, _ := tx.WithoutBlobTxSidecar().MarshalBinary()
+			hashok = hashok && tx.Hash() == crypto.Keccak256Hash(pre)
+		}
+		re, _ := rlp.EncodeToBytes(txs)
+		ev["bins"], ev["sizes"], ev["hashok"], ev["reenc"] = bins, sizes, hashok, rb.FromBytes(re)
+	}
+	tr.Emit(ev)
+}
+
 func runRecord(path string, seed int64, n, nblob int, sum *tl.Summary) {
 	r := tl.Rand(seed)
 	kb := make([]byte, 32)
@@ -536,6 +588,7 @@ func runRecord(path string, seed int64, n, nblob int, sum *tl.Summary) {
 	tr := tl.NewTrace(path)
 	defer tr.Close()
 	seen := map[string]bool{}
+	var pool [][]byte // network forms of earlier (small) transactions
 	for i := 0; i < n; i++ {
 		tx := randTx(r, key, i < nblob)
 		o := observe(tx)
@@ -567,6 +620,22 @@ func runRecord(path string, seed int64, n, nblob int, sum *tl.Summary) {
 			if !seen[string(in)] {
 				seen[string(in)] = true
 				sum.Distinct++
+			}
+		}
+		// lists of transactions as they travel in block bodies and transaction messages
+		pool = append(pool, net)
+		if len(pool) >= 2 && i%2 == 1 {
+			k := 1 + r.Intn(min(4, len(pool)))
+			var payload []byte
+			for j := 0; j < k; j++ {
+				payload = append(payload, pool[r.Intn(len(pool))]...)
+			}
+			list := rb.EncodeItem(rb.L([]rb.Item{rb.R(payload)}), nil, 0)
+			if len(list) < 3000 {
+				for _, in := range [][]byte{list, mutate(r, list), mutate(r, list)} {
+					emitTxList(tr, in)
+					sum.Count("txlist")
+				}
 			}
 		}
 		ninputs := [][]byte{net, mutate(r, net), mutate(r, net)}
